@@ -1,7 +1,523 @@
-From Xpl Require Import C18.Spec.
-From Coq Require Import Lqa.
+(* C18/Proofs.v — lemmas about the model of the prototype searches *)
+From Xpl Require Import Base.Tensor C18.Spec.
+From Coq Require Import Lqa Arith.
 Open Scope Qc_scope.
+
+(* ================================================================= weights *)
 Lemma qsum_map_div (w : list Qc) (s : Qc) : qsum (map (fun x => x / s) w) = qsum w / s.
 Proof. induction w as [|x w IH]; cbn [map qsum]; [unfold Qcdiv; ring | rewrite IH; unfold Qcdiv; ring]. Qed.
+
 Lemma normalise_sum w : qsum w <> 0 -> qsum (normalise w) = 1.
 Proof. intro H. unfold normalise. rewrite qsum_map_div. field. exact H. Qed.
+
+Lemma div_nonneg (x s : Qc) : 0 <= x -> 0 < s -> 0 <= x / s.
+Proof. intros Hx Hs. qc2q.
+  assert (H: (0 < / this s)%Q) by (apply Qinv_lt_0_compat; exact Hs).
+  unfold Qdiv. generalize dependent (/ this s)%Q. intros i Hi. cbn in *. nra. Qed.
+
+Definition all_nonneg (w : list Qc) : Prop := forall x, In x w -> 0 <= x.
+
+Lemma qsum_nonneg w : all_nonneg w -> 0 <= qsum w.
+Proof. induction w as [|x w IH]; intro H; cbn [qsum]; [apply Qcle_refl|].
+  assert (0 <= x) by (apply H; left; reflexivity).
+  assert (0 <= qsum w) by (apply IH; intros y Hy; apply H; right; exact Hy).
+  qc2q. lra. Qed.
+
+Lemma qsum_pos w : all_nonneg w -> (exists x, In x w /\ 0 < x) -> 0 < qsum w.
+Proof. induction w as [|y w IH]; intros H [x [Hin Hx]]; [destruct Hin|]. cbn [qsum].
+  assert (Hy : 0 <= y) by (apply H; left; reflexivity).
+  assert (Hw : all_nonneg w) by (intros z Hz; apply H; right; exact Hz).
+  pose proof (qsum_nonneg w Hw) as Hs.
+  destruct Hin as [->|Hin].
+  - qc2q. lra.
+  - assert (0 < qsum w) by (apply IH; [exact Hw | exists x; split; assumption]). qc2q. lra. Qed.
+
+Lemma normalise_ok w : all_nonneg w -> (exists x, In x w /\ 0 < x) -> weights_ok (normalise w).
+Proof. intros Hn Hp. pose proof (qsum_pos w Hn Hp) as Hs. split.
+  - intros x Hx. unfold normalise in Hx. apply in_map_iff in Hx. destruct Hx as [y [<- Hy]].
+    apply div_nonneg; [apply Hn; exact Hy | exact Hs].
+  - apply normalise_sum. intro E. rewrite E in Hs. apply Qclt_not_le in Hs. apply Hs. apply Qcle_refl. Qed.
+
+Lemma Qcmax_nonneg x : 0 <= Qcmax 0 x.
+Proof. unfold Qcmax. destruct (Qclt_le_dec 0 x) as [H|H]; [apply Qclt_le_weak; exact H | apply Qcle_refl]. Qed.
+
+Lemma opt_weights_nonneg eps A u : all_nonneg (opt_weights eps A u).
+Proof. unfold opt_weights. intros x Hx. destruct (qinv (add_eps eps A)); apply in_map_iff in Hx;
+  destruct Hx as [y [<- _]]; [apply Qcmax_nonneg | apply Qcle_refl]. Qed.
+
+Definition obj_nonneg (obj : objective) : Prop :=
+  forall dg cm selcm krow ssK, all_nonneg (snd (obj dg cm selcm krow ssK)).
+Definition updw_nonneg (u : weight_update) : Prop :=
+  forall old selcm ssK dg v w, all_nonneg old -> all_nonneg w -> all_nonneg (u old selcm ssK dg v w).
+
+Lemma method_obj_nonneg eps m : obj_nonneg (method_obj eps m).
+Proof. intros dg cm selcm krow ssK. destruct m; cbn [method_obj].
+  - unfold mmd_obj. cbn [snd]. intros x Hx. apply repeat_spec in Hx. subst x. discriminate.
+  - unfold dash_obj. cbn [snd]. intros x [].
+  - unfold greedy_obj. cbn [snd]. apply opt_weights_nonneg. Qed.
+
+Lemma method_updw_nonneg eps m : updw_nonneg (method_updw eps m).
+Proof. intros old selcm ssK dg v w Ho Hw. destruct m; cbn [method_updw]; try exact Hw.
+  unfold dash_update. destruct (Qcleb v 0); [|apply opt_weights_nonneg].
+  intros x Hx. apply in_app_or in Hx. destruct Hx as [Hx|[<-|[]]]; [apply Ho; exact Hx | apply Qcle_refl]. Qed.
+
+Section GreedyInv.
+Variable K : list (list Qc).
+Variables bs n np : nat.
+Variable obj : objective.
+Variable updw : weight_update.
+Variables cmT dgT : list (list Qc).
+
+Definition best_nonneg (b : best_t) : Prop :=
+  match b with Some (_, _, _, w) => all_nonneg w | None => True end.
+
+Lemma batch_step_best_nonneg t s st e : obj_nonneg obj -> best_nonneg (fst st) ->
+  best_nonneg (fst (batch_step K bs obj cmT dgT t s st e)).
+Proof.
+  intros Ho Hb. destruct st as [best ssk]. destruct e as [b cases]. unfold batch_step.
+  cbv zeta. match goal with |- context [if negb ?c then _ else _] => destruct (negb c) end; [exact Hb|].
+  match goal with |- context [nth_error ?l ?i] => destruct (nth_error l i) as [[c [bv bw]]|] eqn:E end; [|exact Hb].
+  apply nth_error_In in E. apply in_combine_r in E. apply in_map_iff in E.
+  destruct E as [[p [dg [cm krow]]] [E _]].
+  assert (Hw : all_nonneg bw).
+  { pose proof (Ho dg cm (g_selcm s) krow (g_ssK s)) as H. rewrite E in H. exact H. }
+  match goal with |- context [if ?c then _ else _] => destruct c end; cbn [fst best_nonneg]; [exact Hw | exact Hb].
+Qed.
+
+Lemma fold_batch_best_nonneg t s l st : obj_nonneg obj -> best_nonneg (fst st) ->
+  best_nonneg (fst (fold_left (batch_step K bs obj cmT dgT t s) l st)).
+Proof. intro Ho. revert st. induction l as [|e l IH]; intros st Hb; cbn [fold_left]; [exact Hb|].
+  apply IH. apply batch_step_best_nonneg; assumption. Qed.
+
+Lemma select_step_w_nonneg s : obj_nonneg obj -> updw_nonneg updw -> all_nonneg (g_w s) ->
+  all_nonneg (g_w (select_step K bs n obj updw cmT dgT s)).
+Proof.
+  intros Ho Hu Hs. unfold select_step.
+  pose proof (fold_batch_best_nonneg (length (g_sel s)) s (enum (batches bs n)) (None, g_ssk s) Ho I) as H.
+  destruct (fold_left _ _ _) as [best ssk]. cbn [fst] in H.
+  destruct best as [[[[v bb] bi] w]|]; [|exact Hs]. cbn [g_w]. apply Hu; [exact Hs | exact H].
+Qed.
+
+Lemma iter_w_nonneg s0 k : obj_nonneg obj -> updw_nonneg updw -> all_nonneg (g_w s0) ->
+  all_nonneg (g_w (Nat.iter k (select_step K bs n obj updw cmT dgT) s0)).
+Proof. intros Ho Hu H0. induction k as [|k IH]; [exact H0|].
+  change (Nat.iter (S k) ?f ?x) with (f (Nat.iter k f x)). apply select_step_w_nonneg; assumption. Qed.
+
+Lemma run_greedy_w_nonneg : obj_nonneg obj -> updw_nonneg updw ->
+  all_nonneg (g_w (run_greedy K bs n np obj updw cmT dgT)).
+Proof. intros Ho Hu. unfold run_greedy. apply iter_w_nonneg; [exact Ho | exact Hu | intros x []]. Qed.
+End GreedyInv.
+
+(* prototypes_weights are non-negative and sum to one as soon as one unnormalised weight is positive *)
+Theorem weights_normalised m eps K bs np :
+  let n := length K in
+  let s := run_greedy K bs n np (method_obj eps m) (method_updw eps m) (col_means_table K bs n) (diag_table K bs n) in
+  (exists x, In x (g_w s) /\ 0 < x) -> weights_ok (snd (find_prototypes m eps K bs np)).
+Proof. intros n s Hp. unfold find_prototypes. cbn [snd]. apply normalise_ok; [|exact Hp].
+  apply run_greedy_w_nonneg; [apply method_obj_nonneg | apply method_updw_nonneg]. Qed.
+
+(* ================================================================= first maximiser: batches vs dense *)
+Section FirstMax.
+Context {A : Type}.
+
+(* keep the earlier one unless the later one is strictly better *)
+Definition comb (a b : option (A * Qc)) : option (A * Qc) :=
+  match a, b with
+  | None, _ => b
+  | _, None => a
+  | Some x, Some y => if Qcltb (snd x) (snd y) then Some y else Some x
+  end.
+
+Lemma first_max_cons x (r : list (A * Qc)) : first_max (x :: r) = comb (Some x) (first_max r).
+Proof. cbn [first_max comb]. destruct (first_max r); reflexivity. Qed.
+
+Lemma comb_assoc a b c : comb (comb a b) c = comb a (comb b c).
+Proof.
+  destruct a as [x|], b as [y|], c as [z|]; cbn [comb]; try reflexivity;
+    try (destruct (Qcltb (snd x) (snd y)); reflexivity).
+  destruct (Qcltb (snd x) (snd y)) eqn:Exy; destruct (Qcltb (snd y) (snd z)) eqn:Eyz; cbn [comb];
+    rewrite ?Exy, ?Eyz; try reflexivity.
+  - (* x<y, y<z: x<z *)
+    assert (E : Qcltb (snd x) (snd z) = true).
+    { apply Qcltb_lt. apply Qcltb_lt in Exy, Eyz. eapply Qclt_trans; eassumption. }
+    rewrite E. reflexivity.
+  - (* not x<y, not y<z: not x<z *)
+    destruct (Qcltb (snd x) (snd z)) eqn:Exz; [|reflexivity].
+    exfalso. apply Qcltb_lt in Exz.
+    assert (H1 : ~ snd x < snd y) by (intro H; apply Qcltb_lt in H; congruence).
+    assert (H2 : ~ snd y < snd z) by (intro H; apply Qcltb_lt in H; congruence).
+    apply Qcnot_lt_le in H1, H2. apply (Qclt_not_le _ _ Exz). eapply Qcle_trans; eassumption.
+Qed.
+
+Lemma first_max_app (l1 l2 : list (A * Qc)) : first_max (l1 ++ l2) = comb (first_max l1) (first_max l2).
+Proof. induction l1 as [|x l1 IH]; [reflexivity|].
+  rewrite <- app_comm_cons, !first_max_cons, IH, comb_assoc. reflexivity. Qed.
+
+(* the loop of the code: per-batch first maximiser, replaced only by a STRICTLY better batch *)
+Definition merge_best (best : option (A * Qc)) (batch : list (A * Qc)) : option (A * Qc) :=
+  comb best (first_max batch).
+
+Lemma fold_merge_best (bl : list (list (A * Qc))) acc :
+  fold_left merge_best bl acc = comb acc (first_max (concat bl)).
+Proof. revert acc. induction bl as [|b bl IH]; intro acc; cbn [fold_left concat].
+  - destruct acc; reflexivity.
+  - rewrite IH. unfold merge_best. rewrite first_max_app, comb_assoc. reflexivity. Qed.
+
+(* batched arg-max = dense first arg-max, whatever the cut into batches (empty batches included) *)
+Lemma batched_first_max (bl : list (list (A * Qc))) :
+  fold_left merge_best bl None = first_max (concat bl).
+Proof. rewrite fold_merge_best. reflexivity. Qed.
+
+Lemma batched_first_max_invariant (bl bl' : list (list (A * Qc))) : concat bl = concat bl' ->
+  fold_left merge_best bl None = fold_left merge_best bl' None.
+Proof. intro E. rewrite !batched_first_max, E. reflexivity. Qed.
+
+(* first_max returns a maximiser that is strictly better than everything before it *)
+Lemma first_max_spec (l : list (A * Qc)) x : first_max l = Some x -> is_first_max l x.
+Proof.
+  revert x. induction l as [|y l IH]; intros x H; [discriminate|].
+  cbn [first_max] in H. destruct (first_max l) as [z|] eqn:E.
+  - specialize (IH z eq_refl). destruct IH as [l1 [l2 [El [H1 H2]]]].
+    destruct (Qcltb (snd y) (snd z)) eqn:Eyz; injection H as <-.
+    + exists (y :: l1), l2. split; [rewrite El; reflexivity|]. split; [|exact H2].
+      intros w [<-|Hw]; [apply Qcltb_lt; exact Eyz | apply H1; exact Hw].
+    + exists [], l. split; [reflexivity|]. split; [intros w []|].
+      assert (Hzy : snd z <= snd y).
+      { apply Qcnot_lt_le. intro H. apply Qcltb_lt in H. congruence. }
+      intros w Hw. rewrite El in Hw. apply in_app_or in Hw. destruct Hw as [Hw|[<-|Hw]].
+      * apply Qclt_le_weak. eapply Qclt_le_trans; [apply H1; exact Hw | exact Hzy].
+      * exact Hzy.
+      * eapply Qcle_trans; [apply H2; exact Hw | exact Hzy].
+  - injection H as <-. destruct l; [|cbn [first_max] in E; destruct (first_max l); [destruct (Qcltb _ _)|]; discriminate].
+    exists [], []. split; [reflexivity|]. split; intros w [].
+Qed.
+
+(* tf.argmax as modelled ([argmax], index of the first maximiser) reads the first maximiser *)
+Lemma argmax_from_spec (val : A -> Qc) (r pre : list A) x bi : nth_error (pre ++ r) bi = Some x ->
+  option_map (fun a => (a, val a)) (nth_error (pre ++ r) (argmax_from (map val r) (length pre) bi (val x)))
+  = comb (Some (x, val x)) (first_max (map (fun a => (a, val a)) r)).
+Proof.
+  revert pre x bi. induction r as [|y r IH]; intros pre x bi H.
+  - cbn [map argmax_from first_max comb]. rewrite H. reflexivity.
+  - cbn [map argmax_from]. rewrite first_max_cons, <- comb_assoc.
+    assert (Hy : nth_error ((pre ++ [y]) ++ r) (length pre) = Some y).
+    { rewrite <- app_assoc. rewrite nth_error_app2 by lia. rewrite Nat.sub_diag. reflexivity. }
+    assert (Hx : nth_error ((pre ++ [y]) ++ r) bi = Some x) by (rewrite <- app_assoc; exact H).
+    replace (pre ++ y :: r) with ((pre ++ [y]) ++ r) by (rewrite <- app_assoc; reflexivity).
+    replace (S (length pre)) with (length (pre ++ [y])) by (rewrite app_length; cbn [length]; lia).
+    cbn [comb snd]. destruct (Qcltb (val x) (val y)); apply IH; assumption.
+Qed.
+
+Lemma argmax_first_max (val : A -> Qc) (l : list A) :
+  option_map (fun a => (a, val a)) (nth_error l (argmax (map val l))) = first_max (map (fun a => (a, val a)) l).
+Proof.
+  destruct l as [|x r]; [reflexivity|]. cbn [map argmax]. rewrite first_max_cons.
+  apply (argmax_from_spec val r [x] x 0). reflexivity.
+Qed.
+End FirstMax.
+
+(* ================================================================= documented objectives on the full kernel matrix *)
+Lemma qn_nonzero n : (n <> 0)%nat -> qn n <> 0.
+Proof. intros Hn E. apply Qc_eq_iff in E. unfold qn in E. rewrite Qc_Q2Qc_q in E.
+  unfold Qeq in E. cbn in E. lia. Qed.
+
+Lemma dense_value_mmd K n S c : (n <> 0)%nat -> symmetric K n -> (c < n)%nat -> (forall s, In s S -> (s < n)%nat) ->
+  fst (dense_value mmd_obj K n S c) = mmd_documented K n S c.
+Proof.
+  intros Hn Hs Hc HS. unfold dense_value, mmd_obj, mmd_documented, colmean, colsum. cbn [fst].
+  rewrite map_length.
+  rewrite (qsum_map_ext (fun s => kent K c s) (fun j => kent K j c)) by (intros s Hin; apply Hs; auto).
+  field. split; [|apply qn_nonzero; exact Hn].
+  apply qn_nonzero. lia.
+Qed.
+
+Lemma dense_value_dash_first K n c : fst (dense_value dash_obj K n [] c) = colmean K n c.
+Proof. unfold dense_value, dash_obj. cbn [fst map]. unfold dot, vmul. cbn [map2 qsum]. ring. Qed.
+
+Lemma extend_submat K n S c : symmetric K n -> (c < n)%nat -> (forall s, In s S -> (s < n)%nat) ->
+  extend_kernel (submat K S) (map (fun s => kent K c s) S) (kent K c c) = submat K (S ++ [c]).
+Proof.
+  intros Hs Hc HS. unfold extend_kernel, submat.
+  rewrite map2_map_l, map2_map_r, map2_same, map_app. cbn [map]. f_equal.
+  - apply map_ext_in. intros i Hi. rewrite map_app. cbn [map]. f_equal. f_equal. apply Hs; auto.
+  - rewrite map_app. reflexivity.
+Qed.
+
+Lemma dense_value_greedy eps K n S c : symmetric K n -> (c < n)%nat -> (forall s, In s S -> (s < n)%nat) ->
+  fst (dense_value (greedy_obj eps) K n S c) = greedy_documented eps K n S c.
+Proof.
+  intros Hs Hc HS. unfold dense_value, greedy_obj, greedy_documented, quad_objective. cbn [fst].
+  rewrite (extend_submat K n S c Hs Hc HS), map_app. reflexivity.
+Qed.
+
+(* the dense greedy step picks a first maximiser of the objective among the cases not yet selected *)
+Lemma dense_step_spec obj K n S c : dense_step obj K n S = S ++ [c] ->
+  dense_candidates n S <> [] ->
+  is_first_max (map (fun c => (c, fst (dense_value obj K n S c))) (dense_candidates n S))
+               (c, fst (dense_value obj K n S c)).
+Proof.
+  unfold dense_step. intros H Hne.
+  destruct (first_max _) as [[c' v]|] eqn:E.
+  - apply app_inv_head in H. injection H as ->. pose proof (first_max_spec _ _ E) as Hf.
+    assert (Hv : v = fst (dense_value obj K n S c)).
+    { destruct Hf as [l1 [l2 [El _]]].
+      assert (Hin : In (c, v) (map (fun c0 => (c0, fst (dense_value obj K n S c0))) (dense_candidates n S)))
+        by (rewrite El; apply in_or_app; right; left; reflexivity).
+      apply in_map_iff in Hin. destruct Hin as [c0 [Hc0 _]]. injection Hc0 as -> <-. reflexivity. }
+    rewrite <- Hv. exact Hf.
+  - exfalso. destruct (dense_candidates n S) as [|x r]; [congruence|].
+    cbn [map] in E. rewrite first_max_cons in E. destruct (first_max _) in E; cbn [comb] in E;
+      [destruct (Qcltb _ _) in E|]; discriminate.
+Qed.
+
+Lemma dense_candidates_spec n S c : In c (dense_candidates n S) <-> (c < n)%nat /\ ~ In c S.
+Proof.
+  unfold dense_candidates. rewrite filter_In, in_seq, negb_true_iff. split.
+  - intros [[_ Hc] He]. split; [exact Hc|]. intro Hin.
+    assert (existsb (Nat.eqb c) S = true) by (apply existsb_exists; exists c; split; [exact Hin | apply Nat.eqb_refl]).
+    congruence.
+  - intros [Hc Hn]. split; [lia|]. destruct (existsb (Nat.eqb c) S) eqn:E; [|reflexivity].
+    apply existsb_exists in E. destruct E as [x [Hx Ex]]. apply Nat.eqb_eq in Ex. subst x. contradiction.
+Qed.
+
+(* ================================================================= index translation (batch, position) <-> flat *)
+Close Scope Qc_scope. Open Scope nat_scope.
+
+Lemma nth_firstn' {A} (l : list A) k p d : p < k -> nth p (firstn k l) d = nth p l d.
+Proof. revert k p. induction l as [|x l IH]; intros k p H; [rewrite firstn_nil; reflexivity|].
+  destruct k; [lia|]. destruct p; [reflexivity|]. cbn [firstn nth]. apply IH. lia. Qed.
+
+Lemma nth_skipn' {A} (l : list A) k i d : nth i (skipn k l) d = nth (k + i) l d.
+Proof. revert l. induction k as [|k IH]; intro l; [reflexivity|].
+  destruct l as [|x l]; [destruct i; reflexivity|]. cbn [skipn plus nth]. apply IH. Qed.
+
+(* element p of batch b of a batched list is element b*bs+p of the list *)
+Lemma nth_chunks {A} (l : list A) bs b p d : 1 <= bs -> p < bs ->
+  nth p (nth b (chunks bs l) []) d = nth (b * bs + p) l d.
+Proof.
+  intros Hbs Hp. revert l.
+  assert (Hnil : forall B (i : nat) (x : B), nth i [] x = x) by (intros B [|i] x; reflexivity).
+  induction b as [|b IH]; intro l.
+  - destruct l as [|x l]; [rewrite chunks_nil, !Hnil; reflexivity|].
+    rewrite chunks_cons_step by (auto; discriminate). change (0 * bs + p) with p.
+    change (nth 0 (?a :: ?r) []) with a. apply nth_firstn'. exact Hp.
+  - destruct l as [|x l]; [rewrite chunks_nil, !Hnil; reflexivity|].
+    rewrite chunks_cons_step by (auto; discriminate).
+    change (nth (S b) (?a :: ?r) []) with (nth b r []). rewrite IH, nth_skipn'.
+    f_equal. lia.
+Qed.
+
+Lemma proto_labels_flat bs labels protos : 1 <= bs -> (forall bp, In bp protos -> snd bp < bs) ->
+  proto_labels bs labels protos = map (fun bp => nth (flat_idx bs bp) labels 0) protos.
+Proof. intros Hbs Hp. unfold proto_labels, flat_idx. apply map_ext_in. intros bp Hin.
+  apply nth_chunks; [exact Hbs | apply Hp; exact Hin]. Qed.
+
+(* local explanations: the dataset index returned for a neighbour is one of the prototypes' indices and the
+   label returned with it is the label of the dataset at that very index *)
+Lemma local_row_labels_indices bs k protos labels drow d idx lab : 1 <= bs ->
+  (forall bp, In bp protos -> snd bp < bs) ->
+  In (d, Some idx, Some lab) (local_row bs k protos (proto_labels bs labels protos) drow) ->
+  In idx protos /\ lab = nth (flat_idx bs idx) labels 0.
+Proof.
+  intros Hbs Hp Hin. unfold local_row in Hin. apply in_map_iff in Hin. destruct Hin as [[dd o] [He _]].
+  cbn [fst snd] in He. destruct o as [[b p]|]; [|discriminate].
+  injection He as _ Hi Hl.
+  rewrite (proto_labels_flat bs labels protos Hbs Hp) in Hl.
+  rewrite nth_error_map, Hi in Hl. cbn [option_map] in Hl. injection Hl as <-.
+  split; [eapply nth_error_In; exact Hi | reflexivity].
+Qed.
+
+(* ================================================================= selected cases are distinct *)
+Lemma upd_length {A} i (v : A) l : length (upd i v l) = length l.
+Proof. revert i. induction l as [|x l IH]; intros [|i]; cbn [upd length]; auto. Qed.
+Lemma nth_upd_same {A} i (v : A) l d : i < length l -> nth i (upd i v l) d = v.
+Proof. revert i. induction l as [|x l IH]; intros [|i] H; cbn [upd nth length] in *; try lia; auto.
+  apply IH. lia. Qed.
+Lemma nth_upd_other {A} i j (v : A) l d : i <> j -> nth j (upd i v l) d = nth j l d.
+Proof. revert i j. induction l as [|x l IH]; intros [|i] [|j] H; cbn [upd nth]; try reflexivity; try lia.
+  apply IH. lia. Qed.
+
+Lemma NoDup_snoc {A} (l : list A) x : NoDup l -> ~ In x l -> NoDup (l ++ [x]).
+Proof. induction l as [|y l IH]; intros Hn Hx; cbn [app]; [constructor; [intros []|constructor]|].
+  inversion Hn as [|? ? Hy Hl]; subst. constructor.
+  - intro Hin. apply in_app_or in Hin. destruct Hin as [Hin|[E|[]]]; [contradiction|]. subst. apply Hx. left. reflexivity.
+  - apply IH; [exact Hl|]. intro Hin. apply Hx. right. exact Hin. Qed.
+
+Definition mask_at (m : list (list bool)) (b p : nat) : bool := nth p (nth b m []) false.
+
+Lemma mask_at_upd2_same m b p : p < length (nth b m []) -> mask_at (upd2 b p true m) b p = true.
+Proof. intro H. unfold mask_at, upd2.
+  assert (Hb : b < length m).
+  { destruct (Nat.lt_ge_cases b (length m)) as [Hl|Hl]; [exact Hl|].
+    rewrite nth_overflow in H by exact Hl. cbn [length] in H. lia. }
+  rewrite nth_upd_same by exact Hb. apply nth_upd_same. exact H. Qed.
+
+Lemma mask_at_upd2_keep m b p b' p' : mask_at m b' p' = true -> mask_at (upd2 b p true m) b' p' = true.
+Proof. intro H. unfold mask_at, upd2 in *.
+  destruct (Nat.eq_dec b b') as [<-|Hb].
+  - destruct (Nat.lt_ge_cases b (length m)) as [Hl|Hl].
+    + rewrite nth_upd_same by exact Hl.
+      destruct (Nat.eq_dec p p') as [<-|Hp]; [|rewrite nth_upd_other by exact Hp; exact H].
+      apply nth_upd_same.
+      destruct (Nat.lt_ge_cases p (length (nth b m []))) as [Hq|Hq]; [exact Hq|].
+      rewrite nth_overflow in H by exact Hq. discriminate.
+    + rewrite (nth_overflow m []) in H by exact Hl. destruct p'; discriminate.
+  - rewrite nth_upd_other by exact Hb. exact H. Qed.
+
+Lemma bmask_in {A} (l : list (nat * A)) (m : list bool) p x : In (p, x) (bmask l m) ->
+  forall k, map fst l = seq k (length l) -> k <= p /\ nth (p - k) m false = true.
+Proof.
+  revert m. induction l as [|[q y] l IH]; intros m Hin k Hs; [destruct m; destruct Hin|].
+  destruct m as [|b m]; [destruct Hin|]. cbn [map length seq fst] in Hs. injection Hs as -> Hs.
+  cbn [bmask] in Hin. destruct b.
+  - destruct Hin as [E|Hin].
+    + injection E as <- _. rewrite Nat.sub_diag. split; [lia | reflexivity].
+    + destruct (IH m Hin (S k) Hs) as [H1 H2]. split; [lia|].
+      replace (p - k) with (S (p - S k)) by lia. exact H2.
+  - destruct (IH m Hin (S k) Hs) as [H1 H2]. split; [lia|].
+    replace (p - k) with (S (p - S k)) by lia. exact H2.
+Qed.
+
+Lemma map_fst_combine_seq {B} k n (l : list B) : n <= length l ->
+  map fst (combine (seq k n) l) = seq k (length (combine (seq k n) l)).
+Proof. revert k l. induction n as [|n IH]; intros k l H; [reflexivity|].
+  destruct l as [|x l]; [cbn [length] in H; lia|]. cbn [seq combine map fst length]. f_equal.
+  apply IH. cbn [length] in H. lia. Qed.
+
+Lemma map_fst_combine_seq' {B} k n (l : list B) :
+  map fst (combine (seq k n) l) = seq k (length (combine (seq k n) l)).
+Proof. revert k l. induction n as [|n IH]; intros k l; [reflexivity|].
+  destruct l as [|x l]; [reflexivity|]. cbn [seq combine map fst length]. f_equal. apply IH. Qed.
+
+Section Distinct.
+Variable K : list (list Qc).
+Variables bs n : nat.
+Variable obj : objective.
+Variable updw : weight_update.
+Variables cmT dgT : list (list Qc).
+
+(* the best candidate so far is a position whose mask_of_selected entry is (in range and) False *)
+Definition best_free (m : list (list bool)) (b : best_t) : Prop :=
+  match b with
+  | Some (_, bb, bi, _) => nth bi (map negb (nth bb m [])) false = true /\ bi < bs
+  | None => True
+  end.
+
+Lemma batch_step_best_free t s st e : best_free (g_mask s) (fst st) ->
+  best_free (g_mask s) (fst (batch_step K bs obj cmT dgT t s st e)).
+Proof.
+  intros Hb. destruct st as [best ssk]. destruct e as [b cases]. unfold batch_step. cbv zeta.
+  match goal with |- context [if negb ?c then _ else _] => destruct (negb c) end; [exact Hb|].
+  match goal with |- context [nth_error ?l ?i] => destruct (nth_error l i) as [[c [bv bw]]|] eqn:E end; [|exact Hb].
+  match goal with |- context [if ?c then _ else _] => destruct c end; [|exact Hb].
+  cbn [fst best_free]. apply nth_error_In in E. apply in_combine_l in E.
+  destruct c as [p x]. cbn [fst]. unfold candidates in E.
+  pose proof (bmask_in _ _ p x E 0 (map_fst_combine_seq' 0 bs _)) as [_ H]. rewrite Nat.sub_0_r in H.
+  assert (Hp : p < bs).
+  { assert (Hin : In p (map fst (combine (seq 0 bs)
+        (combine (nth b dgT []) (combine (nth b cmT []) (map (firstn t)
+           (nth b (if 0 <? t then upd b (assign_col (t - 1) (map (fun i => kent K i (g_last s)) cases) (nth b ssk [])) ssk else ssk) []))))))).
+    { clear H. revert E. generalize (combine (seq 0 bs)
+        (combine (nth b dgT []) (combine (nth b cmT []) (map (firstn t)
+           (nth b (if 0 <? t then upd b (assign_col (t - 1) (map (fun i => kent K i (g_last s)) cases) (nth b ssk [])) ssk else ssk) []))))).
+      intros L. generalize (if length cases <? bs
+         then map2 andb (map negb (nth b (g_mask s) [])) (map (fun p0 => p0 <? length cases) (seq 0 bs))
+         else map negb (nth b (g_mask s) [])). intros M. revert M.
+      induction L as [|[q y] L IH]; intros [|mb M] Hin; try destruct Hin.
+      - cbn [bmask] in Hin. destruct mb; [destruct Hin as [Eq|Hin]|].
+        + injection Eq as -> _. left. reflexivity.
+        + right. eapply IH. exact Hin.
+        + right. eapply IH. exact Hin. }
+    rewrite map_fst_combine_seq' in Hin. apply in_seq in Hin.
+    rewrite combine_length, seq_length in Hin. lia. }
+  split; [|exact Hp].
+  destruct (length cases <? bs); [|exact H].
+  (* masked by range(bs) < len: still implies the unselected flag *)
+  clear E Hp. revert H. generalize (map negb (nth b (g_mask s) [])). intro M.
+  generalize (map (fun p0 => p0 <? length cases) (seq 0 bs)). intro R. revert M R.
+  induction p as [|p IHp]; intros [|m0 M] [|r0 R] H; cbn [map2 nth] in *; try discriminate.
+  - apply andb_true_iff in H. tauto.
+  - apply IHp with (R := R). exact H.
+Qed.
+
+Lemma fold_batch_best_free t s l st : best_free (g_mask s) (fst st) ->
+  best_free (g_mask s) (fst (fold_left (batch_step K bs obj cmT dgT t s) l st)).
+Proof. revert st. induction l as [|e l IH]; intros st Hb; cbn [fold_left]; [exact Hb|].
+  apply IH. apply batch_step_best_free; assumption. Qed.
+
+Definition sel_inv (s : gstate) : Prop :=
+  NoDup (g_sel s) /\ (forall b p, In (b, p) (g_sel s) -> mask_at (g_mask s) b p = true /\ p < bs).
+
+Lemma select_step_inv s : sel_inv s -> sel_inv (select_step K bs n obj updw cmT dgT s).
+Proof.
+  intros [Hnd Hm]. unfold select_step.
+  pose proof (fold_batch_best_free (length (g_sel s)) s (enum (batches bs n)) (None, g_ssk s) I) as H.
+  destruct (fold_left _ _ _) as [best ssk]. cbn [fst] in H.
+  destruct best as [[[[v bb] bi] w]|]; [|split; assumption].
+  cbn [best_free] in H. destruct H as [H Hbi]. unfold sel_inv. cbn [g_sel g_mask].
+  assert (Hlen : bi < length (nth bb (g_mask s) [])).
+  { destruct (Nat.lt_ge_cases bi (length (nth bb (g_mask s) []))) as [Hl|Hl]; [exact Hl|].
+    rewrite nth_overflow in H by (rewrite map_length; exact Hl). discriminate. }
+  assert (Hfree : mask_at (g_mask s) bb bi = false).
+  { unfold mask_at. rewrite (nth_indep _ false (negb false)) in H by (rewrite map_length; exact Hlen).
+    rewrite map_nth in H. apply negb_true_iff in H. exact H. }
+  split.
+  - apply NoDup_snoc; [exact Hnd|]. intro Hin. destruct (Hm _ _ Hin) as [Ht _]. congruence.
+  - intros b p Hin. apply in_app_or in Hin. destruct Hin as [Hin|[E|[]]].
+    + destruct (Hm _ _ Hin) as [Ht Hp]. split; [apply mask_at_upd2_keep; exact Ht | exact Hp].
+    + injection E as <- <-. split; [apply mask_at_upd2_same; exact Hlen | exact Hbi].
+Qed.
+End Distinct.
+
+Lemma NoDup_map_inj {A B} (f : A -> B) (l : list A) :
+  NoDup l -> (forall x y, In x l -> In y l -> f x = f y -> x = y) -> NoDup (map f l).
+Proof. induction l as [|x l IH]; intros Hn Hf; cbn [map]; [constructor|].
+  inversion Hn as [|? ? Hx Hl]; subst. constructor.
+  - intro Hin. apply in_map_iff in Hin. destruct Hin as [y [E Hy]].
+    assert (y = x) by (apply Hf; [right; exact Hy | left; reflexivity | exact E]). subst. contradiction.
+  - apply IH; [exact Hl|]. intros a b Ha Hb. apply Hf; right; assumption. Qed.
+
+Lemma flat_idx_inj bs a b : snd a < bs -> snd b < bs -> flat_idx bs a = flat_idx bs b -> a = b.
+Proof. destruct a as [b1 p1], b as [b2 p2]. unfold flat_idx. cbn [fst snd]. intros H1 H2 E.
+  assert (b1 = b2) by nia. subst. f_equal. lia. Qed.
+
+Lemma iter_sel_inv K bs n obj updw cmT dgT s0 k : sel_inv bs s0 ->
+  sel_inv bs (Nat.iter k (select_step K bs n obj updw cmT dgT) s0).
+Proof. intro H0. induction k as [|k IH]; [exact H0|].
+  change (Nat.iter (S k) ?f ?x) with (f (Nat.iter k f x)). apply select_step_inv. exact IH. Qed.
+
+(* the prototypes are distinct cases of the dataset: distinct (batch, position) pairs with position < batch size,
+   hence distinct dataset positions batch * bs + position *)
+Theorem selected_distinct m eps K bs np :
+  let sel := fst (find_prototypes m eps K bs np) in
+  NoDup sel /\ (forall bp, In bp sel -> snd bp < bs) /\ NoDup (map (flat_idx bs) sel).
+Proof.
+  cbv zeta. unfold find_prototypes. cbn [fst]. unfold run_greedy.
+  match goal with |- context [Nat.iter np ?f ?s0] =>
+    assert (H : sel_inv bs (Nat.iter np f s0)) by (apply iter_sel_inv; split; [constructor | intros b p []]) end.
+  destruct H as [Hn Hm]. split; [exact Hn|].
+  assert (Hp : forall bp, In bp (g_sel (Nat.iter np
+     (select_step K bs (length K) (method_obj eps m) (method_updw eps m) (col_means_table K bs (length K))
+        (diag_table K bs (length K))) (init_state bs (length K) np))) -> snd bp < bs).
+  { intros [b p] Hin. apply (Hm b p Hin). }
+  split; [exact Hp|].
+  apply NoDup_map_inj; [exact Hn|]. intros x y Hx Hy. apply flat_idx_inj; apply Hp; assumption.
+Qed.
+
+Open Scope Qc_scope.
+Lemma dense_candidates_nil n : dense_candidates n [] = seq 0 n.
+Proof. unfold dense_candidates. cbn [existsb negb]. induction (seq 0 n) as [|x l IH]; cbn [filter]; [reflexivity|].
+  rewrite IH. reflexivity. Qed.
+
+(* ProtoDash starts from the case with the largest mean kernel value (first one on ties) *)
+Theorem protodash_first K n c : (n <> 0)%nat -> dense_select dash_obj K n 1 = [c] ->
+  is_first_max (map (fun c => (c, colmean K n c)) (seq 0 n)) (c, colmean K n c).
+Proof.
+  intros Hn H. unfold dense_select in H. cbn [Nat.iter] in H.
+  change (dense_step dash_obj K n [] = [] ++ [c]) in H.
+  assert (Hne : dense_candidates n [] <> []).
+  { rewrite dense_candidates_nil. destruct n; [congruence | discriminate]. }
+  pose proof (dense_step_spec dash_obj K n [] c H Hne) as Hs.
+  rewrite dense_candidates_nil in Hs. rewrite dense_value_dash_first in Hs.
+  erewrite map_ext in Hs; [exact Hs|]. intro a. cbn beta. rewrite dense_value_dash_first. reflexivity.
+Qed.
